@@ -101,6 +101,10 @@ static int RunStream(Cfg c, BS & bs)
    using namespace choppy;
    c.nsend = 1;
    Pipe pipe; Plan wplan(&bs); wplan.generous = true; Plan rplan(&bs);
+   const bool choppyWrites = ((c.mtu%2) == 1);
+   // a third of the packet-tunnel cases with a slave gateway use a RawDataMessageIOGateway slave: raw chunks, some of them larger than what that gateway reads in one call (8192 bytes),
+   // so the tunnel has to keep calling its slave until the reassembled buffer is used up.  Raw data has no framing of its own: what must arrive is the same bytes in the same order.
+   const bool rawStream = (c.slave)&&(c.mini == false)&&((c.mtu/2)%3 == 0); if (rawStream) c.rawSlave = true; std::string rawSent;     // the stream below accepts the sender's writes in generated pieces too (short writes, would-block): back-pressure on a perfectly reliable transport
    DataIORef childW(new ChopIO(NULL, &pipe, &wplan)); PacketizedProxyDataIO * pw = new PacketizedProxyDataIO(childW, c.mtu); DataIORef pwRef(pw);
    AbstractMessageIOGatewayRef snd = MakeTunnel(c, false); snd()->SetDataIO(pwRef);
    std::vector<std::string> sent; uint64_t h = 77|((uint64_t)c.mtu<<8)|(c.mini ? 1 : 0); size_t biggest = 0;
@@ -108,6 +112,13 @@ static int RunStream(Cfg c, BS & bs)
    const uint32 nm = 1+bs.u8()%6;
    for (uint32 k=0; k<nm; k++)
    {
+      if (rawStream)
+      {
+         MessageRef rm = GetMessageFromPool(PR_COMMAND_RAW_DATA); const uint32 nchunks = 1+bs.u8()%3;
+         for (uint32 q=0; q<nchunks; q++) {const uint32 clen = (bs.u8()%3 == 0) ? 1+bs.range(0, 20000) : 1+bs.range(0, 300); std::string v(clen, '\0'); uint32 x = bs.u8()+k*7+q; for (uint32 j=0; j<clen; j++) {x = x*1664525u+1013904223u; v[j] = (char)(x>>24);} (void) rm()->AddData(PR_NAME_DATA_CHUNKS, B_RAW_TYPE, v.data(), clen); rawSent += v; if (clen > biggest) biggest = clen;}
+         if (snd()->AddOutgoingMessage(rm).IsError()) vf::Fail("AddOutgoingMessage failed"); h = vf::HashStr(rawSent.substr(rawSent.size() > 64 ? rawSent.size()-64 : 0), h^rawSent.size());
+         continue;
+      }
       MessageRef m = GetMessageFromPool(bs.u8()%4); uint32 len = (bs.u8()%3 == 0) ? bs.range(0, 6*c.mtu) : bs.range(0, 60); if (len > 8000) len = 8000;
       if ((c.slave)&&(vf::AllowKnown("F25") == false)&&(len+64 > fakeMtu)) {len = bs.range(0, 200); vf::Excluded("F25");}
       if (len) {std::string v(len, '\0'); uint32 x = bs.u8(); for (uint32 j=0; j<len; j++) {x = x*1664525u+1013904223u; v[j] = (char)(x>>24);} (void) m()->AddData("d", B_RAW_TYPE, v.data(), len);}
@@ -117,19 +128,29 @@ static int RunStream(Cfg c, BS & bs)
       if (snd()->AddOutgoingMessage(m).IsError()) vf::Fail("AddOutgoingMessage failed");
       if (fits) sent.push_back(fl); h = vf::HashStr(fl, h); if (fl.size() > biggest) biggest = fl.size();
    }
+   if (choppyWrites) wplan.generous = false;
    for (int r=0; r<50000; r++)
    {
-      while(pw->HasBufferedOutput()) pw->WriteBufferedOutput();
+      if (r > 3000) wplan.generous = true;
+      {int spins = 0; while(pw->HasBufferedOutput()) {pw->WriteBufferedOutput(); if (++spins > 40) wplan.generous = true;}}
       if (snd()->HasBytesToOutput() == false) break;
       if (snd()->DoOutput().IsError()) vf::Fail("tunnel sender reported an I/O error over the packetized stream transport");
       if (r == 49999) vf::Fail("tunnel sender never finished its output over the packetized stream transport");
    }
-   while(pw->HasBufferedOutput()) pw->WriteBufferedOutput();
-   const size_t streamBytes = pipe.q.size();
+   wplan.generous = true; while(pw->HasBufferedOutput()) pw->WriteBufferedOutput();
+   const size_t streamBytes = pipe.q.size(); if (wplan.partialOps) vf::Count("case_stream_transport_with_short_writes");
    DataIORef childR(new ChopIO(&pipe, NULL, &rplan)); DataIORef prRef(new PacketizedProxyDataIO(childR, c.mtu));
-   AbstractMessageIOGatewayRef rcv = MakeTunnel(c, true); rcv()->SetDataIO(prRef); Recv recv;
+   AbstractMessageIOGatewayRef rcv = MakeTunnel(c, true); rcv()->SetDataIO(prRef); Recv recv; recv.rawChunks = rawStream;
    for (int r=0; (r<200000)&&(pipe.q.size()); r++) {if (r > 20000) rplan.generous = true; if (rcv()->DoInput(recv).IsError()) vf::Fail("tunnel receiver reported an I/O error over the packetized stream transport (mini=%d mtu=%u slave=%d, %zu stream bytes, %llu partial reads so far)", (int)c.mini, c.mtu, (int)c.slave, streamBytes, (unsigned long long)rplan.partialOps);}
    for (int r=0; r<8; r++) (void) rcv()->DoInput(recv);
+   if (rawStream)
+   {
+      std::string rawGot; for (size_t i=0; i<recv.got.size(); i++) rawGot += recv.got[i].first;
+      if (rawGot != rawSent) vf::Fail("packetized stream transport with a raw-data slave gateway (nothing lost): %zu bytes sent in chunks of up to %zu bytes, %zu bytes received%s (mtu=%u, %zu stream bytes)", rawSent.size(), biggest, rawGot.size(), (rawGot.size() == rawSent.size()) ? ", different bytes" : "", c.mtu, streamBytes);
+      vf::Count("mode_packetized_stream_transport"); vf::Count("packet_tunnel"); vf::Count("stream_transport_with_raw_data_slave_gateway"); if (biggest > 8192) vf::Count("case_raw_chunk_larger_than_one_slave_read");
+      if ((rplan.partialOps >= 2)&&(rawSent.size())) vf::NonTrivial(vf::HashMix(h, rplan.partialOps));
+      return 0;
+   }
    std::vector<std::string> g; for (size_t i=0; i<recv.got.size(); i++) g.push_back(recv.got[i].first);
    if (g != sent) vf::Fail("packetized stream transport (nothing lost): %zu (fitting) Messages sent, %zu received%s (mini=%d mtu=%u slave=%d, %zu stream bytes, %llu partial reads)", sent.size(), g.size(), (g.size() == sent.size()) ? ", different content or order" : "", (int)c.mini, c.mtu, (int)c.slave, streamBytes, (unsigned long long)rplan.partialOps);
    vf::Count("mode_packetized_stream_transport"); vf::Count(c.mini ? "mini_tunnel" : "packet_tunnel");
